@@ -392,6 +392,23 @@ def ord_cover_jobs(ctx, colls, keys, caps, shards, driver="paths", fanout=1, wri
     return futs
 
 
+def ord_triple_jobs(ctx, colls, flags=()):
+    """query - update - update - use from the covered states (smallest first): what a look-up leaves behind
+    (a remembered successor, an insertion place) must not survive the updates that invalidate it"""
+    q = ctx.quick()
+    paths = ctx.cover("cover-ord-k5c0-tri", "MCOrd", ord_consts(5, 0), ORD_INV)
+    paths = sorted(paths, key=len)[:(30 if q else len(paths))]
+    futs = []
+    for coll in (one_per_kind(colls) if q else colls):
+        n = 3 if q else 10
+        for i in range(n):
+            pf = ctx.path(f"tri-{coll}-{i}.txt")
+            with open(pf, "w") as f:
+                f.write("\n".join(paths[i::n]) + "\n")
+            futs.append(ctx.submit(f"triples-{coll}-{i}", coll, "paths", {"paths": pf, "keys": 5, "triples": 1, "max_events": 600000}, flags=flags))
+    return futs
+
+
 def random_jobs(ctx, colls, nseeds, params, flags=(), tag=""):
     futs = []
     for coll in colls:
@@ -619,6 +636,7 @@ def plan_ord(ctx, colls):
         futs += ord_cover_jobs(ctx, colls, 4, [1, 9], 2, writes=True)
     futs += random_jobs(ctx, colls, 2 if q else 8, {"keys": 10, "steps": 2500 if q else 12000, "seglen": 90})
     futs += random_jobs(ctx, colls, 1 if q else 3, {"keys": 40, "steps": 1200 if q else 6000, "seglen": 400}, tag="-wide")
+    futs += ord_triple_jobs(ctx, colls)
     # (quick tier: the deep run belongs to the properties that speak about look-ups, removals and steps)
     futs += ord_scale_jobs(ctx, colls, deep=420000 if (not q or ctx.pid in ("C04", "C05", "C09")) else 0)
     # instance-counting payloads: a value dropped twice, or never, by an entry move, a removal, clear or the drop
@@ -739,6 +757,7 @@ def plan_lists(ctx):
     futs += random_jobs(ctx, ORD_LISTS, 1 if q else 6, {"keys": 10, "steps": 2000 if q else 10000, "seglen": 90})
     futs += random_jobs(ctx, ["keylist"], 2 if q else 8, {"keys": 8, "tspan": 5, "steps": 2500 if q else 12000, "seglen": 70})
     futs += ord_scale_jobs(ctx, ORD_LISTS, deep=200000)
+    futs += ord_triple_jobs(ctx, ORD_LISTS)
     futs += random_jobs(ctx, ["maplist-cnt", "setlist-cnt"], 1 if q else 4, {"keys": 14, "steps": 1500 if q else 8000, "seglen": 80}, tag="-cnt")
     futs += key_scale_jobs(ctx, ["keylist"], "ABCDG", deep=20000 if q else 60000)
     ctx.collect(futs)
@@ -838,13 +857,13 @@ def seg_random_jobs(ctx, nseeds, steps, inject=0, flags=(), tag=""):
     return futs
 
 
-DENSE_DOMAINS = [("seg-i32", -10240, 15360), ("seg-i32", 0, 31), ("seg-i64", -4611686018427387904, 4611686018427387902)]
+DENSE_DOMAINS = [("seg-i32", -10240, 15360), ("seg-i32", 0, 31), ("seg-i32", -100, 699), ("seg-i64", -4611686018427387904, 4611686018427387902)]
 
 
 def seg_dense_jobs(ctx, inject=0, flags=(), tag=""):
     """long bucket lists (up to 70 copies, capacity coincidences, e == t), a root list of whole-domain values,
     fault enumeration inside a long list, a bulk run of 2 500 values in one list"""
-    doms = DENSE_DOMAINS[:2] if ctx.quick() else DENSE_DOMAINS
+    doms = DENSE_DOMAINS[:3] if ctx.quick() else DENSE_DOMAINS
     # (the first domain gets a list of 70 000 copies - more than a 16-bit cursor can address - whose yields are logged in summary)
     return [ctx.submit(f"dense{tag}-{coll}-d{di}", coll, "dense", {"lo": lo, "hi": hi, "seed": ctx.seed + di, "inject": inject, "bulk": 70000 if di == 0 else 2500}, flags=flags)
             for di, (coll, lo, hi) in enumerate(doms)]
